@@ -48,25 +48,55 @@ Fixpoint isort_f (l : list F) : option (list F) :=
   | [] => Some []
   | x :: r => match isort_f r with None => None | Some s => insert_f x s end
   end.
-Fixpoint draw_pieces (n : nat) (ends : list F) (bs : list Z) : list (F * list Z) :=
+(* a piece decoder: T::arbitrary on the remaining bytes; it may fail (ArbErr) - the derived decoders of PolyK never do, a nested
+   Piecewise<..> does *)
+Definition decoder (P : Type) := list Z -> arb_result (P * list Z).
+(* ends.into_iter().map(|end| Ok(Segment{end, poly: T::arbitrary(u)?})).collect::<Result<Vec<_>>>()? : the first failing piece
+   fails the whole function *)
+Fixpoint draw_pieces_g {P : Type} (piece : decoder P) (ends : list F) (bs : list Z) : arb_result (list (F * P) * list Z) :=
   match ends with
-  | [] => []
-  | e :: r => let '(p, bs') := get_n_f64 n bs in (e, p) :: draw_pieces n r bs'
+  | [] => ArbOk ([], bs)
+  | e :: r => match piece bs with
+              | ArbErr => ArbErr
+              | ArbPanic => ArbPanic
+              | ArbOk (p, bs') => match draw_pieces_g piece r bs' with
+                                  | ArbErr => ArbErr
+                                  | ArbPanic => ArbPanic
+                                  | ArbOk (l, bs'') => ArbOk ((e, p) :: l, bs'')
+                                  end
+              end
   end.
-Definition arb_piecewise (npiece : nat) (bs : list Z) : arb_result (list (F * list Z)) :=
+Definition arb_piecewise_g {P : Type} (piece : decoder P) (bs : list Z) : arb_result (list (F * P) * list Z) :=
   let '(ends, rest) := get_vec_f64 bs in
   let fe := map of_bits ends in
   if (match fe with [] => true | _ => false end) || negb (forallb is_normalb fe) then ArbErr
   else match isort_f fe with
        | None => ArbPanic
-       | Some s => ArbOk (draw_pieces npiece s rest)
+       | Some s => draw_pieces_g piece s rest
        end.
+Definition poly_piece (n : nat) : decoder (list Z) := fun bs => ArbOk (get_n_f64 n bs).
+Definition drop_rest {X : Type} (r : arb_result (X * list Z)) : arb_result X :=
+  match r with ArbErr => ArbErr | ArbPanic => ArbPanic | ArbOk (x, _) => ArbOk x end.
+(* Piecewise<PolyK> with n = K+1 numbers per piece *)
+Definition arb_piecewise (npiece : nat) (bs : list Z) : arb_result (list (F * list Z)) :=
+  drop_rest (arb_piecewise_g (poly_piece npiece) bs).
+(* Piecewise<Piecewise<PolyK>>: the piece decoder is the same function one level down *)
+Definition arb_nested (npiece : nat) (bs : list Z) : arb_result (list (F * list (F * list Z))) :=
+  drop_rest (arb_piecewise_g (arb_piecewise_g (poly_piece npiece)) bs).
 
+Definition dump_arb (segs : list (F * list Z)) : list Z :=
+  Z.of_nat (length segs) :: flat_map (fun s => to_bits (fst s) :: snd s) segs.
 Definition run_arbitrary (npiece : nat) (bs : list Z) : list Z :=
   match arb_piecewise npiece bs with
   | ArbErr => [0]
   | ArbPanic => [-1]
-  | ArbOk segs => 1 :: Z.of_nat (length segs) :: flat_map (fun s => to_bits (fst s) :: snd s) segs
+  | ArbOk segs => 1 :: dump_arb segs
+  end.
+Definition run_arbitrary_nested (npiece : nat) (bs : list Z) : list Z :=
+  match arb_nested npiece bs with
+  | ArbErr => [0]
+  | ArbPanic => [-1]
+  | ArbOk segs => 1 :: Z.of_nat (length segs) :: flat_map (fun s => to_bits (fst s) :: dump_arb (snd s)) segs
   end.
 Definition run_arb_vec (bs : list Z) : list Z :=
   let '(v, rest) := get_vec_f64 bs in 1 :: Z.of_nat (length v) :: (map (fun z => to_bits (of_bits z)) v ++ [Z.of_nat (length rest)]).
